@@ -108,3 +108,10 @@ Print Assumptions C14_coords_promotion_plays_queen.
 Print Assumptions C14_notation_accepted_iff_label.
 Print Assumptions C14_notation_ok_or_invalid.
 Print Assumptions C14_notation_plays_that_move.
+
+(* the model constants equal the ones translated from the source on this run *)
+From ChessV Require ConstsTie.
+Check ConstsTie.rights_masks_tie.
+Check ConstsTie.promotions_tie.
+Check ConstsTie.search_key_arity_tie.
+Check ConstsTie.clock_key_threshold_tie.
